@@ -51,6 +51,11 @@ type c15Run struct {
 func c15Setup(t *testing.T, c *c15Case, p *c15Prog) (*c15Run, error) {
 	n := simStart(t, proto.Clone(c.global).(*api.Global))
 	ru := &c15Run{c: c, n: n}
+	for _, v := range c.vrfs {
+		if err := c15AddVrf(n.s, v); err != nil {
+			return ru, fmt.Errorf("AddVrf %v: %w", v, err)
+		}
+	}
 	for _, s := range p.Sets {
 		if err := n.s.AddDefinedSet(c15Ctx, &api.AddDefinedSetRequest{DefinedSet: proto.Clone(s).(*api.DefinedSet)}); err != nil {
 			return ru, fmt.Errorf("AddDefinedSet %s: %w", c15Text(s), err)
@@ -85,6 +90,9 @@ func c15Setup(t *testing.T, c *c15Case, p *c15Prog) (*c15Run, error) {
 
 func (ru *c15Run) msg(a c15Ann) *bgp.BGPMessage {
 	sp := ru.sps[a.Spk]
+	if a.RD != 0 {
+		return c15BuildVPN(sp, a)
+	}
 	if a.W {
 		return sp.buildWithdraw(a.Spec.Prefix, 0)
 	}
@@ -117,7 +125,7 @@ func (ru *c15Run) doReset(racing bool) error {
 				if c.reset.Target != "all" && c.reset.Target != ps.Addr {
 					continue
 				}
-				for _, f := range ps.families() {
+				for _, f := range c.peerFams(i) {
 					if err := ru.sps[i].sendMsg(bgp.NewBGPRouteRefreshMessage(f.Afi(), 0, f.Safi())); err != nil {
 						return err
 					}
@@ -237,21 +245,38 @@ func (ru *c15Run) snapshot() (*c15Snap, error) {
 	best := func(p *apiutil.Path) string { return fmt.Sprintf("best=%v", p.Best) }
 	filt := func(p *apiutil.Path) string { return fmt.Sprintf("filtered=%v", p.Filtered) }
 	none := func(p *apiutil.Path) string { return "" }
-	anyV6 := false
-	for _, ps := range c.peers {
-		anyV6 = anyV6 || ps.V6
-	}
-	for _, f := range []bgp.Family{bgp.RF_IPv4_UC, bgp.RF_IPv6_UC} {
-		if f == bgp.RF_IPv6_UC && !anyV6 {
-			continue
+	hasFam := func(i int, f bgp.Family) bool {
+		for _, g := range c.peerFams(i) {
+			if g == f {
+				return true
+			}
 		}
-		if c.hasNon {
+		return false
+	}
+	var fams []bgp.Family // every family some session carries, in a fixed order
+	for _, f := range []bgp.Family{bgp.RF_IPv4_UC, bgp.RF_IPv6_UC, bgp.RF_IPv4_VPN} {
+		for i := range c.peers {
+			if hasFam(i, f) {
+				fams = append(fams, f)
+				break
+			}
+		}
+	}
+	for _, v := range c.vrfs {
+		if err := list("vrf-rib@"+v.Name, apiutil.ListPathRequest{TableType: api.TableType_TABLE_TYPE_VRF, Name: v.Name, Family: bgp.RF_IPv4_UC}, true, best); err != nil {
+			return nil, fmt.Errorf("ListPath VRF %s: %w", v.Name, err)
+		}
+	}
+	for _, f := range fams {
+		if len(c.vrfs) > 0 && f != bgp.RF_IPv4_VPN {
+			// the sessions of VRF neighbours carry plain families; the table behind them is the VPN one
+		} else if c.hasNon {
 			if err := list("loc-rib", apiutil.ListPathRequest{TableType: api.TableType_TABLE_TYPE_GLOBAL, Family: f}, true, best); err != nil {
 				return nil, fmt.Errorf("ListPath GLOBAL %s: %w", f, err)
 			}
 		}
-		for _, ps := range c.peers {
-			if f == bgp.RF_IPv6_UC && !ps.V6 {
+		for i, ps := range c.peers {
+			if !hasFam(i, f) {
 				continue
 			}
 			if ps.Kind == simRSClient {
@@ -400,7 +425,7 @@ func c15Compare(a, b, base *c15Snap, only func(view string) bool) []c15Diff {
 // EnableFiltered) of that and the import policy gobgp evaluates now, reset or not; adj-out of the
 // Loc-RIB and the export policy gobgp evaluates now. So a difference whose most upstream view is
 // adj-in / adj-out says that the policy in force is not P2 (the change, not the reset, is at fault).
-var c15ViewPrio = []string{"adj-in-raw", "adj-in", "loc-rib", "rs-loc-rib", "adj-out", "wire"}
+var c15ViewPrio = []string{"adj-in-raw", "adj-in", "loc-rib", "rs-loc-rib", "vrf-rib", "adj-out", "wire"}
 var c15HowPrio = []string{"withdrawn-prefix-still-held", "stale-route-not-withdrawn", "newly-accepted-missing", "changed-attrs-not-updated", "route-lost", "spurious-route", "wrong-attrs",
 	"stale-route", "missing-route", "attrs-differ", "best-differs", "filtered-flag-differs"}
 
@@ -442,7 +467,7 @@ func c15Patterns(p1, p2 *c15Snap) []string {
 		cl := c15ViewClass(n)
 		side := ""
 		switch cl {
-		case "loc-rib", "rs-loc-rib":
+		case "loc-rib", "rs-loc-rib", "vrf-rib":
 			side = "in"
 		case "wire":
 			side = "out"
@@ -674,12 +699,18 @@ func c15RunFresh(t *testing.T, c *c15Case, p *c15Prog, routes []c15Ann, rb *[]st
 func TestVerifC15(t *testing.T) {
 	rec := vlib.Open("C15")
 	defer rec.Close()
-	// three single-change pairs (with the repeat and the racing oracles), then one multi-round history
-	total := vlib.Scale(640, 19200)
+	// of nine cases: six single-change pairs (with the repeat and the racing oracles), two multi-round
+	// histories, one multi-round history on a VRF topology
+	total := vlib.Scale(720, 21600)
 	vlib.Cases(total, func(idx int) {
-		if idx%4 == 3 {
+		switch idx % 9 {
+		case 3, 7:
 			rec.Mark(fmt.Sprintf("c15 history %d", idx), true)
 			c15HistoryCase(t, rec, idx)
+			return
+		case 8:
+			rec.Mark(fmt.Sprintf("c15 vrf history %d", idx), true)
+			c15VrfHistoryCase(t, rec, idx)
 			return
 		}
 		rec.Mark(fmt.Sprintf("c15 pair %d", idx), true)
